@@ -247,10 +247,6 @@ func runC03(c *core.Ctx) {
 			if e := (v - lbn) / v / u; e > worstCont {
 				worstCont = e
 			}
-			if !(lbn > lb) {
-				c.Failf("LowerBound.not_increasing", "LowerBound(%d)=%v >= LowerBound(%d)=%v (%s)", idx, lb, idx+1, lbn, m.Desc)
-				return
-			}
 		}
 		if !(val > 0) || math.IsInf(val, 0) {
 			c.Failf("Value.not_finite", "Value(%d)=%v (%s)", idx, val, m.Desc)
